@@ -14,6 +14,7 @@ from wpull.application.hook import HookableMixin
 from wpull.protocol.abstract.client import BaseClient, BaseSession, DurationTimeout
 from wpull.backport.logging import BraceMessage as __
 from wpull.body import Body
+from wpull.errors import ProtocolError
 from wpull.protocol.http.request import Request, Response
 from wpull.protocol.http.stream import Stream
 
@@ -39,6 +40,9 @@ class Session(BaseSession):
         begin_response = 'begin_response'
         response_data = 'response_data'
         end_response = 'end_response'
+
+    MAX_INTERIM_RESPONSES = 100
+    '''Number of interim (1xx) responses accepted in front of a response.'''
 
     def __init__(self, stream_factory: Callable[..., Stream]=None, **kwargs):
         super().__init__(**kwargs)
@@ -111,14 +115,18 @@ class Session(BaseSession):
         stream.data_event_dispatcher.add_read_listener(hold_callback)
 
         try:
-            while True:
+            # Interim responses (RFC 7231 6.2) precede the final response.
+            # A server may send several, not any number of them.
+            for dummy in range(self.MAX_INTERIM_RESPONSES + 1):
                 del received[:]
                 self._response = response = yield from stream.read_response()
 
-                # Interim responses (RFC 7231 6.2) precede the final response.
                 if not (100 <= response.status_code < 200
                         and response.status_code != 101):
                     break
+            else:
+                stream.close()
+                raise ProtocolError('Too many interim responses.')
         finally:
             stream.data_event_dispatcher.remove_read_listener(hold_callback)
 
